@@ -182,6 +182,8 @@ func runC02(c *Ctx) {
 	rulePassthru(c, "PASSTHRU")
 	// "each connection's streams": the handler goroutine relays the connection accepted for it, not a later one
 	ruleLoopVar(c, "OWNCONN", "service")
+	// a connection closed with SO_LINGER 0 is reset: what was queued for the client but not yet sent is discarded
+	ruleNoReset(c)
 }
 
 // C02.HALFCLOSE
